@@ -3,7 +3,7 @@ PROP = {'n_quick': 260,
  'n_thorough': 2500,
  'audit': 4,
  'audit_maxlen': 6000,
- 'rule': 'four streams: (o) `opened`: the real-network doc vector of verify_tx_amt_proofs, every tamper class at every position; (m) `opened` mixed: transactions built directly with the real library whose outputs take all four forms explicit/confidential x (asset, value) — in particular explicit asset + confidential value and confidential asset + explicit amount — with every tamper class at those positions; (i) `tamper`: explicit transactions over the C04 shape lattice blinded by the real crate under a seeded RNG, then ONE tamper of the '
+ 'rule': 'five streams: (x) `exact`: BlindValueProofs / BlindAssetProofs run directly — the genuine exact proof, range proofs made with exponent 0 that START at the claimed value / below it / above it (min_bits 0..63), every claimed value in {committed value, range minimum, +-1}, verified against its own statement, another generator, another blinding, a commitment to the claimed value; exact-asset proofs against the right / another asset and generator; (o) `opened`: the real-network doc vector of verify_tx_amt_proofs, every tamper class at every position; (m) `opened` mixed: transactions built directly with the real library whose outputs take all four forms explicit/confidential x (asset, value) — in particular explicit asset + confidential value and confidential asset + explicit amount — with every tamper class at those positions; (i) `tamper`: explicit transactions over the C04 shape lattice blinded by the real crate under a seeded RNG, then ONE tamper of the '
          "property's list applied to the real structures — explicit amount/asset, replaced or exchanged value/asset commitment, removed/exchanged/corrupted "
          'range or surjection proof, script of a blinded output, issuance amount, spent output with different amount/asset — at every applicable position '
          '(thorough) or one position per class and transaction (quick); (ii) `explicit`: all-explicit transactions, balanced / unbalanced in an input or '
@@ -15,7 +15,7 @@ PROP = {'n_quick': 260,
              "a tamper is applied by the harness to the real transaction and, symbolically, by the model (Model/Tamper.v `apply`) to its opened form; "
              '`corrupt` = one flipped byte that still parses (real) / the intact flag cleared (model)',
              'asset ids are numbers; issuance ids are read from the case (C11)'],
- 'tables': ['C04'],
+ 'tables': ['C04'],   # own piece tables_C05.py (Gen/SrcExact.v) + C04's range-proof constants
  'assumes': ['C05_tamper and C05_sound are about transactions whose spent outputs are opened (`opens`: H_a + abf*G generators, explicit issuances) — '
              'the transactions C04 produces; confidential issuance amounts are outside',
              'a spent-asset change is only claimed to be rejected when the function reads the asset (some output has a surjection proof, or the spent '
@@ -30,7 +30,11 @@ TEXT = {'text': 'Kernel-checked theorems in the ideal-commitment model (level: p
          'length, zero amounts occur only on provably unspendable scripts and every asset balances (C05_explicit_iff, the property\'s own form, after '
          'repair b3b2d40 of finding F13); an explicit zero amount is SKIPPED on a provably unspendable script and still REJECTED '
          '(NonUnspendableZeroValue from get_value_commit) on a spendable one (C05_zero_value_unspendable_skipped / _spendable_rejected); a spent list of '
-         'the wrong length is rejected as such (C05_len_mismatch). '
+         'the wrong length is rejected as such (C05_len_mismatch). Exact proofs of PSET explicit fields (Model/ExactProofs.v; the public range of a range proof transcribed from '
+         'range_proveparams for exponents -1 and 0; the acceptance condition of blind_value_proof_verify TRANSLATED from src/blind.rs into Gen/SrcExact.v on every run): accepted => the '
+         'commitment opens to exactly the claimed value and the stated range is that single value (C05_exact_value_sound); any proof stating more than one value — every exponent-0 proof, '
+         'even one whose minimum is the claimed value — is refused (C05_exact_value_wide_refused / _exp0_refused); another value is refused; the genuine proof is accepted; the u64 subtraction '
+         'of the condition never underflows (C05_exact_value_no_panic, from the GENERATED safety condition); exact-asset proofs are sound, name one asset, and the genuine one is accepted. '
          'Every run blinds generated transactions with the real crate, applies each tamper to the real structures, and the model must predict the verdict '
          'AND the error variant (with index) of verify_tx_amt_proofs before and after.',
  'design_ref': 'DESIGN.md section 6, C05',
